@@ -152,12 +152,12 @@ func runC02(c *Ctx, r *Report, tier string) {
 		if t0 == "P1" {
 			continue
 		}
-		okN := t0 == "slice(P1, _, "+pos+")"
+		okN := t0 == `before(P1, "=")`
 		okA := false
 		if al, ok := ret.Results[2].(*ssa.Alloc); ok {
 			stores, _ := c.cellStores(al)
 			for _, st := range stores {
-				if c.term(st.Val) == "slice(P1, ("+pos+" + 1), _)" {
+				if c.term(st.Val) == `after(P1, "=")` {
 					okA = true
 				}
 			}
@@ -165,11 +165,11 @@ func runC02(c *Ctx, r *Report, tier string) {
 		r.Check(okN && okA, "SPLIT", son, "name = option[:pos], argument = option[pos+1:]", c.ipos(ret), "both slices at the same position", fmt.Sprintf("name=%s argument ok=%v", trunc(t0, 60), okA))
 		// guard: (islong ∧ pos ≥ 0) ∨ (¬islong ∧ pos == width of first rune)
 		_, g := c.Requires(so, isInstr(ret), anyLit(
-			litIs("lt("+pos+", 0)", false),
+			litIs(`has(P1, "=")`, true),
 			litIs("eq("+pos+", call:unicode/utf8.DecodeRuneInString(P1)#1)", true),
 		), nil)
 		_, gl := c.Requires(so, isInstr(ret), anyLit(litIs("P2", true), litIs("eq("+pos+", call:unicode/utf8.DecodeRuneInString(P1)#1)", true)), nil)
-		_, gs := c.Requires(so, isInstr(ret), anyLit(litIs("P2", false), litIs("lt("+pos+", 0)", false)), nil)
+		_, gs := c.Requires(so, isInstr(ret), anyLit(litIs("P2", false), litIs(`has(P1, "=")`, true)), nil)
 		r.Check(g && gl && gs, "SPLIT", son, "long: pos ≥ 0; short: pos == width of the first character", c.ipos(ret), "REQ((islong ∧ pos ≥ 0) ∨ (¬islong ∧ pos == DecodeRune width))", fmt.Sprintf("pos-guard=%v long-side=%v short-side=%v", g, gl, gs))
 	}
 
